@@ -70,6 +70,9 @@ pub struct Case {
     pub answer: Answer,
     /// packets delivered after the request completed (must have no effect)
     pub extras: Vec<MalPacket>,
+    /// configured ban duration: 0 = default (1 h), 1 = permanent (None), 2 = 10 minutes
+    #[serde(default)]
+    pub ban_cfg: u8,
 }
 
 pub struct C11;
@@ -85,7 +88,17 @@ fn dist(p: &ids::Id, e: &Enr) -> u64 {
 
 async fn run(case: &Case, rep: &mut CaseReport) -> Option<(String, String)> {
     reset_globals();
-    let mut q = Svc::new(SvcConfig { key_idx: 0, ..Default::default() }).await;
+    let ban_duration = match case.ban_cfg % 3 {
+        0 => None,
+        1 => Some(None),
+        _ => Some(Some(std::time::Duration::from_secs(600))),
+    };
+    rep.class(match case.ban_cfg % 3 {
+        0 => "ban-duration-default",
+        1 => "ban-duration-permanent",
+        _ => "ban-duration-10min",
+    });
+    let mut q = Svc::new(SvcConfig { key_idx: 0, ban_duration, ..Default::default() }).await;
     let p_enr = shaped_record(P_KEY, 1, Shape::V4);
     let p_id = p_enr.node_id().raw();
     let p_addr = shaped_addr(P_KEY, Shape::V4, false).unwrap();
@@ -450,8 +463,9 @@ impl Property for C11 {
             proptest::collection::vec((any::<u16>(), prop_oneof![Just(300u16), Just(100u16), 100u16..=300]), 0..80),
             answer,
             prop_oneof![2 => Just(vec![]), 1 => proptest::collection::vec(mal_packet(), 1..3)],
+            prop_oneof![2 => Just(0u8), 1 => Just(1u8), 1 => Just(2u8)],
         )
-            .prop_map(|(class, pat, r_entries, answer, extras)| Case { class, pat, r_entries, answer, extras })
+            .prop_map(|(class, pat, r_entries, answer, extras, ban_cfg)| Case { class, pat, r_entries, answer, extras, ban_cfg })
             .boxed()
     }
     fn extra(_tier: Tier, _seed: u64, shard: usize, nshards: usize) -> Vec<(Case, CaseReport)> {
@@ -465,6 +479,7 @@ impl Property for C11 {
                     r_entries: (0..40u16).map(|i| (i * 7 + class, 300)).collect(),
                     answer: Answer::Honest { plan: vec![] },
                     extras: vec![],
+                    ban_cfg: (class % 3) as u8,
                 };
                 let rep = crate::runner::run_guarded::<C11>(&case);
                 (case, rep)
